@@ -376,12 +376,13 @@ def check(run):
                         "results": [r["c"] for r in e["res"]], "pool": e["obs"]["pool"]})
         run.cov["counterexamples_replayed"] = rep
         run.samples.append({"counterexample": behs[1]["sc"], "schedule": behs[1]["sched"], "real": rep[1]})
-        before = len(run.known_hits)
-        okc = validate(run, stats, trs[0], "cex", kf_known)
-        run.cov["finding_10_reproduced_on_real_code"] = (not okc) or len(run.known_hits) > before
-        if okc and len(run.known_hits) == before:
+        ri = run.tlc_validate("Trace_SpinLock", "Trace_SpinLock.cfg", trs[0], name="val_cex_ideal", consts={KF: "FALSE"})
+        reproduced = ri["hw"] != ri["len"] + 1          # the IDEAL instantiation rejects what the real code did
+        run.cov["finding_10_reproduced_on_real_code"] = reproduced
+        if not reproduced:
             vp.log("note: the specification's counterexample to the two-step shared lock was NOT reproduced on the real "
                    "code (design warning only, R4)")
+        okc = validate(run, stats, trs[0], "cex", kf_known)
         ok = ok and okc
 
     # (3) conformance, sampled part: schedules of 3-4 requests by simulation
